@@ -141,8 +141,19 @@ Apply(s, n, r) ==
 \* that made the operator subscribe it (the last entry of h is amended, not extended).  While this is pending nothing else may happen.
 SyncPending == sync.j # 0 /\ ~synced /\ nsub[sync.j] = 1
 SyncNotif == LET s == Src(sync.j) IN IF sync.k = "E" THEN E(s, SubCtx \cup {TMark(s)}) ELSE C(SubCtx \cup {TMark(s)})
+\* k = "U": not an end of the inner source - the DOWNSTREAM subscriber unsubscribes while inner source j is being subscribed (a cut in the
+\* middle of the operator's subscription phase): everything is released, also what the operator subscribes later in the same phase.
+SyncCut ==
+  /\ SyncPending /\ sync.k = "U"
+  /\ LET rel == Release(ost, ist)
+         prev == h[Len(h)]
+     IN /\ ost' = rel.o /\ ist' = rel.i /\ blk' = 0
+        /\ h' = [h EXCEPT ![Len(h)] = [prev EXCEPT !.exp = Obs(prev.exp.log, TRUE, rel.o, rel.i, nsub, 0)]]
+  /\ synced' = TRUE /\ unsub' = TRUE /\ closed' = TRUE
+  /\ UNCHANGED <<m, tail, sync, phase, log, sent, octx, intro, nsub, last, q>>
+
 SyncEnd ==
-  /\ SyncPending
+  /\ SyncPending /\ sync.k # "U"
   /\ LET r == InnerStep(sync.j, SyncNotif)
          tc == TailCut(tail, r.out)
          term == HasTerminal(tc.out)
@@ -179,7 +190,7 @@ Unsub ==
 ONotifs == {N(intro + 1, SubCtx \cup {Mark(1, sent[1])}), E(1, SubCtx \cup {TMark(1)}), C(SubCtx \cup {TMark(1)})}
 INotifs(j) == LET s == Src(j) IN {N(10 * s + sent[s], SubCtx \cup {Mark(s, sent[s])}), E(s, SubCtx \cup {TMark(s)}), C(SubCtx \cup {TMark(s)})}
 
-Next == Subscribe \/ SyncEnd \/ Unsub \/ (\E n \in ONotifs : PushOuter(n)) \/ (\E j \in Inner : \E n \in INotifs(j) : PushInner(j, n))
+Next == Subscribe \/ SyncEnd \/ SyncCut \/ Unsub \/ (\E n \in ONotifs : PushOuter(n)) \/ (\E j \in Inner : \E n \in INotifs(j) : PushInner(j, n))
 Spec == Init /\ [][Next]_vars
 
 NothingLeft == /\ ost = "ended" \/ sent[1] >= MaxPerSrc \/ blk # 0
